@@ -10,6 +10,7 @@ package main
 
 import (
 	"fmt"
+	"math/big"
 	"strings"
 	"sync"
 	"time"
@@ -40,9 +41,40 @@ func (c c20Content) eq(d c20Content) bool {
 		string(c.Payload) == string(d.Payload)
 }
 
-func (c c20Content) coq() string {
-	return fmt.Sprintf("(mkC %s %d %d %s %s %s)", cStr(c.Topic), c.ID, c.QoS, cBool(c.Retain), cBool(c.Dup), cBytes(c.Payload))
+// c20Num encodes a byte string as one number (CheckC20.dec): little-endian base 256, leading 1 as end marker.
+func c20Num(b []byte) string {
+	n := big.NewInt(1)
+	for i := len(b) - 1; i >= 0; i-- {
+		n.Lsh(n, 8)
+		n.Or(n, big.NewInt(int64(b[i])))
+	}
+	return n.String()
 }
+
+func (c c20Content) coq() string {
+	fl := 0
+	if c.Retain {
+		fl |= 1
+	}
+	if c.Dup {
+		fl |= 2
+	}
+	t := fmt.Sprintf("RC %s %d %d %d %s", c20Num([]byte(c.Topic)), c.ID, c.QoS, fl, c20Num(c.Payload))
+	if c20Tab == nil {
+		return "(" + t + ")"
+	}
+	// repeated contents are named once per cases file (Coq's parsing cost is per syntax node)
+	k, ok := c20Tab[t]
+	if !ok {
+		k = len(c20Tab)
+		c20Tab[t] = k
+		c20TabOrder = append(c20TabOrder, t)
+	}
+	return fmt.Sprintf("k%d", k)
+}
+
+var c20Tab map[string]int
+var c20TabOrder []string
 
 func (c c20Content) String() string {
 	f := ""
@@ -52,7 +84,7 @@ func (c c20Content) String() string {
 	if c.Dup {
 		f += "D"
 	}
-	return fmt.Sprintf("{%q id%d q%d %s %x}", c.Topic, c.ID, c.QoS, f, c.Payload)
+	return fmt.Sprintf("{%q id%d q%d %s payload=%x}", c.Topic, c.ID, c.QoS, f, c.Payload)
 }
 
 // ---- mutator operations (Clone.op) ----
@@ -106,7 +138,7 @@ func (o *c20Op) apply(m *mqtt.Message) {
 func (o *c20Op) coq() string {
 	switch o.Kind {
 	case "topic":
-		return "OSetTopic " + cStr(o.S)
+		return "RTopic " + c20Num([]byte(o.S))
 	case "id":
 		return fmt.Sprintf("OSetId %d", o.N)
 	case "qos":
@@ -116,13 +148,13 @@ func (o *c20Op) coq() string {
 	case "dup":
 		return "OSetDup " + cBool(o.B)
 	case "write":
-		return fmt.Sprintf("OWrite %s %d", cNat(o.I), o.V)
+		return fmt.Sprintf("RWrite %d %d", o.I, o.V)
 	case "append":
-		return fmt.Sprintf("OAppend %s %s", cBytes(o.Bs), cNat(o.Extra))
+		return fmt.Sprintf("RAppend %s %d", c20Num(o.Bs), o.Extra)
 	case "reslice":
-		return fmt.Sprintf("OReslice %s %s", cNat(o.I), cNat(o.Hi))
+		return fmt.Sprintf("RReslice %d %d", o.I, o.Hi)
 	case "newpayload":
-		return fmt.Sprintf("ONewPayload %s %s", cBytes(o.Bs), cNat(o.Extra))
+		return fmt.Sprintf("RNewPl %s %d", c20Num(o.Bs), o.Extra)
 	}
 	return "OSetDup false"
 }
@@ -161,19 +193,19 @@ type c20Step struct {
 func (s *c20Step) coq() string {
 	switch s.Kind {
 	case "new":
-		return fmt.Sprintf("SNew %s %s", s.C.coq(), cNat(s.Extra))
+		return fmt.Sprintf("RNew %s %d", s.C.coq(), s.Extra)
 	case "mut":
-		return fmt.Sprintf("SMut %s (%s)", cNat(s.A), s.Op.coq())
+		return fmt.Sprintf("RMut %d (%s)", s.A, s.Op.coq())
 	case "muxbegin":
-		return fmt.Sprintf("SMuxBegin %s %s", cNat(s.A), cNat(s.B))
+		return fmt.Sprintf("RBegin %d %d", s.A, s.B)
 	case "muxnext":
-		return fmt.Sprintf("SMuxNext %s %s", cNat(s.A), cNat(s.Extra))
+		return fmt.Sprintf("RNext %d %d", s.A, s.Extra)
 	case "async":
-		return fmt.Sprintf("SAsync %s %s %s", cNat(s.A), cNat(s.B), cNat(s.Extra))
+		return fmt.Sprintf("RAsync %d %d %d", s.A, s.B, s.Extra)
 	case "run":
-		return fmt.Sprintf("SRun %s", cNat(s.A))
+		return fmt.Sprintf("RRun %d", s.A)
 	}
-	return "SRun 99999%nat"
+	return "RRun 99999"
 }
 
 func (s *c20Step) String() string {
@@ -204,9 +236,9 @@ type c20Event struct {
 
 func (e c20Event) coq() string {
 	if e.Entry {
-		return fmt.Sprintf("EvEntry %s %s %s %s", cNat(e.D), cNat(e.Hid), cNat(e.A), e.C.coq())
+		return fmt.Sprintf("REntry %d %d %d %s", e.D, e.Hid, e.A, e.C.coq())
 	}
-	return fmt.Sprintf("EvDispatch %s %s %s", cNat(e.D), cNat(e.A), e.C.coq())
+	return fmt.Sprintf("RDisp %d %d %s", e.D, e.A, e.C.coq())
 }
 
 func (e c20Event) String() string {
@@ -682,7 +714,7 @@ func (x *c20Exec) coqCase() string {
 	for _, rs := range x.regs {
 		var l []string
 		for _, rg := range rs {
-			l = append(l, cTuple(cStr(rg.Filter), cNat(rg.Hid)))
+			l = append(l, fmt.Sprintf("RReg %s %d", c20Num([]byte(rg.Filter)), rg.Hid))
 		}
 		regs = append(regs, cListInline(l))
 	}
@@ -695,7 +727,7 @@ func (x *c20Exec) coqCase() string {
 	for _, d := range x.deltas {
 		var l []string
 		for _, kc := range d {
-			l = append(l, cTuple(cNat(kc.K), kc.C.coq()))
+			l = append(l, fmt.Sprintf("RD %d %s", kc.K, kc.C.coq()))
 		}
 		deltas = append(deltas, cListInline(l))
 	}
